@@ -17,7 +17,6 @@ set_option Elab.async false
 namespace KlogV.Regexes
 open KlogV.Rx
 
-theorem ansiSequence : Tie Gen.rx_app_cli_terminalformat_ansiSequencePattern Gen.rx_app_cli_terminalformat_ansiSequencePattern_anchors Gen.rx_app_cli_terminalformat_ansiSequencePattern_unsupported Expect.ansiSequence false false := by
-  decide +kernel
+theorem ansiSequence : tied Gen.allRegexes Expect.ansiSequence false false = true := by decide +kernel
 
 end KlogV.Regexes
